@@ -61,6 +61,7 @@ QSEG = [[(0.25, 0.5), (3.75, 1.5)], [(0.5, 3.5), (3.5, 0.5)], [(1, 0), (1, 4)], 
 KINDS = ["tc2", "tc3", "net_post", "net_pre"]
 
 OBLIGATIONS = {
+    "on_feature_query_on_a_cell_border": "a point query at a vertex / segment middle of a feature that lies on a cell border returned that feature",
     "vertex_on_cell_corner": "a feature vertex lies on a corner of the grid",
     "segment_along_grid_line": "a proper feature segment lies on a grid line",
     "zero_length_segment": "a feature has a zero-length segment",
@@ -448,6 +449,34 @@ def check_point(B, qx, qy, ctx):
     return nt
 
 
+def check_on_feature(B, k, qx, qy, ctx):
+    """(2b) a query point that lies ON feature k (a vertex or the middle of a segment): whichever cell the index takes the
+    point to be in, feature k passes through it -- request(coord) must return k.  No border convention is involved."""
+    case = dict(B.spec, op="onfeature", k=k, q=[qx, qy])
+    st, got = guard(B.si.request, ENUCoords(qx, qy, 0.0))
+    if st != "ok":
+        ctx.violation("request-point/%s" % _bad(st), case, got)
+        return False
+    if not isinstance(got, (list, tuple, set)):
+        ctx.violation("request-point/no-list-returned", case, repr(got)[:100])
+        return False
+    if k not in set(x for x in got if _int(x)):
+        G = B.G
+        f = B.feats[k]
+        is_vertex = (qx, qy) in [tuple(p) for p in f]
+        cells = point_cells(G, qx, qy)
+        on_x = abs((qx - G["xmin"]) / G["dX"] - round((qx - G["xmin"]) / G["dX"])) * G["dX"] <= G["eps"]
+        on_y = abs((qy - G["ymin"]) / G["dY"] - round((qy - G["ymin"]) / G["dY"])) * G["dY"] <= G["eps"]
+        where = "cell-corner" if (on_x and on_y) else ("cell-border" if (on_x or on_y) else "cell-interior")
+        ctx.violation("request-point/on-feature/%s/%s/feature-omitted" % ("vertex" if is_vertex else "segment-middle", where), case,
+                      {"q": [qx, qy], "feature": k, "got": sorted(x for x in got if _int(x)), "features": B.feats, "grid": B.G})
+        return True
+    if len(point_cells(B.G, qx, qy)) > 1:
+        ctx.oblige("on_feature_query_on_a_cell_border")
+    ctx.outcome(("onf", len(got)))
+    return True
+
+
 def check_query(B, pts, form, ctx):
     """(3) request([c1,c2]) / request(track) contains everything registered in a crossed cell."""
     case = dict(B.spec, op="query", form=form, pts=[list(p) for p in pts])
@@ -555,6 +584,15 @@ def run_index(spec, full_nbh, ctx):
             ctx.count("point_queries_on_upper_outer_border_not_generated")
             continue
         ctx.case(check_point(B, qx, qy, ctx))
+    # (2b) point queries on the features themselves: every vertex and the middle of every segment
+    seen_q = set()
+    for k, f in enumerate(B.feats):
+        qs = list(f) + [((f[i][0] + f[i + 1][0]) / 2.0, (f[i][1] + f[i + 1][1]) / 2.0) for i in range(len(f) - 1)]
+        for (qx, qy) in qs:
+            if (k, qx, qy) in seen_q or qx >= G["xmax"] - e or qy >= G["ymax"] - e:
+                continue
+            seen_q.add((k, qx, qy))
+            ctx.case(check_on_feature(B, k, qx, qy, ctx))
     # (3) segment / track queries: every feature and its segments, plus the fixed extra segments
     done = set()
     for f in B.feats:
@@ -592,6 +630,8 @@ def replay(case, ctx):
         check_cell(B, case["cell"][0], case["cell"][1], ctx)
     elif case["op"] == "point":
         check_point(B, case["q"][0], case["q"][1], ctx)
+    elif case["op"] == "onfeature":
+        check_on_feature(B, case["k"], case["q"][0], case["q"][1], ctx)
     elif case["op"] == "query":
         check_query(B, [tuple(p) for p in case["pts"]], case["form"], ctx)
     elif case["op"] == "nbh":
